@@ -65,6 +65,39 @@ def _self_weight(env, tag, dz, min_dz, c_ii, D, key):
                atoms=[c_ii, D, min_dz], key=key)
 
 
+def body_wrapper(env):
+    """region_rodded.calculate_min_dz (the per-bundle wrapper): its result is at most every interior and every bypass
+    limit computed at either temperature, and the adiabatic wall is passed on consistently.  The two sub-criteria are the
+    real functions (wrapped only to expose their results); the correlated-parameter updates are no-ops (properties frozen)."""
+    n, nduct = env.params['n_ring'], env.params['n_duct']
+    adiabatic = env.params['adiabatic']
+    with env.patch(MODS):
+        r = SR.sym_rodded(env, n, nduct, fields=False)
+        r.coolant.temperature = 700.0
+        r._update_coolant_int_params = lambda *a, **k: None
+        r._update_coolant_byp_params = lambda *a, **k: None
+        env.stub('correlated-parameter updates at the two sampled temperatures are no-ops (the limits are computed on one symbolic state)')
+        seen = []
+
+        def spy(nm, f):
+            def g(bundle, which=None):
+                v = f(bundle, which)
+                seen.append((nm, which, v[0]))
+                return v
+            return g
+        with env.patch([], extra={(rrm, '_calculate_int_dz'): spy('interior', rrm._calculate_int_dz),
+                                  (rrm, '_calculate_byp_dz'): spy('bypass', rrm._calculate_byp_dz)}):
+            res, _code = rrm.calculate_min_dz(r, 600.0, 900.0, adiabatic)
+        kinds = sorted(set(k for k, _w, _v in seen))
+        env.holds('both temperatures are evaluated for the interior%s' % (' and the bypass' if nduct > 1 else ''),
+                  [k for k, _w, _v in seen].count('interior') == 2 and (nduct == 1 or [k for k, _w, _v in seen].count('bypass') == 2))
+        want = None if not adiabatic else ('outer_byp' if nduct > 1 else 'outer')
+        env.holds('the adiabatic wall is passed on to the sub-criteria', all(w == want for _k, w, _v in seen))
+        for j, (k, _w, v) in enumerate(seen):
+            env.le('bundle limit <= %s limit #%d' % (k, j), res, v, key='bundle_limit_above_a_sub_limit')
+        env.gt('bundle limit positive', res, 0.0)
+
+
 def body_interior(env):
     n, nduct = env.params['n_ring'], env.params['n_duct']
     adiabatic = env.params['adiabatic']
@@ -470,6 +503,10 @@ def instances(tier):
                         inst.append(dict(label='bypass[rings=%d,ducts=%d,conv_approx=%s,adiabatic=%s,gap=%d]' % (n, nduct, conv, adiabatic, bi),
                                          body=body_bypass, params={'n_ring': n, 'n_duct': nduct, 'conv_approx': conv,
                                                                    'adiabatic': adiabatic, 'bypass': bi}, timeout_ms=120000, max_paths=64))
+    for n, nduct in ((2, 1), (2, 2), (2, 3), (3, 2)):
+        for adiabatic in (False, True):
+            inst.append(dict(label='bundle-limit[rings=%d,ducts=%d,adiabatic=%s]' % (n, nduct, adiabatic), body=body_wrapper,
+                             params={'n_ring': n, 'n_duct': nduct, 'adiabatic': adiabatic}, max_paths=400, max_depth=200, timeout_ms=120000))
     for n in (2, 3):
         inst.append(dict(label='stagnant-bypass[rings=%d]' % n, body=body_stagnant, params={'n_ring': n, 'n_duct': 2}))
     for lay in (('one-a2', 'two-a2-a3', 'three-a2-a3-ur') if tier == 'quick' else ('one-a2', 'two-a2-a3', 'three-a2-a3-ur', 'three-a3-dd-u6', 'ring-no-centre')):
